@@ -29,6 +29,7 @@ TNext ==
     \/ Is("run_end") /\ P_RunEnd(E.res, E.e, E.se, E.polls)
     \/ Is("look") /\ P_Look(E.e, E.se, E.polls)
     \/ Is("stale") /\ P_Stale(E.h)
+    \/ Is("will_panic") /\ P_WillPanic(E.h, E.at)
     \/ /\ l <= Len(Rec) /\ Rec[l].ev \in {"turn", "turn_end"}
        /\ l' = l + 1 /\ UNCHANGED pvars
 
